@@ -295,7 +295,7 @@ def e2e(ctx):
 
 
 def run(ctx):
-    N = ctx.n(1920, 96000)
+    N = ctx.n(1920, 24000)
     per = 160
     cases = pmap(ctx, work, [per] * (N // per), procs=12)
     ctx.corr("multistage_rechunking_plan", "Model.Util Model.Rechunk", cases.get("plan", []), chunk=250)
